@@ -11,7 +11,7 @@ from pw_verif.snap import Malformed, snapshot
 
 PROP = "C15"
 LEVEL = "exploration"
-BUDGET = {"quick": 480, "thorough": 6000}
+BUDGET = {"quick": 960, "thorough": 9000}
 MIN_PER_SHARD = 10
 RULE = (
     "A world (as in C01, Fock modes with different cut-offs), 2-3 operation 'slots' (generated descriptions: same "
